@@ -147,7 +147,7 @@ fn panic_kind(msg: &str) -> String {
 
 /// Small fixed contracts. Every one has a `pragma solidity` line and no free function (detectors that abort
 /// without them are other properties' business). Several share patterns so that merging matters.
-const SOURCES: [&str; 6] = [
+const SOURCES: [&str; 8] = [
     // 0: FloatingPragma, OptimalComparison
     "// SPDX-License-Identifier: MIT\npragma solidity ^0.8.0;\n\ncontract A0 {\n    uint256 public total;\n\n    function cmp(uint256 x, uint256 y) public view returns (bool) {\n        return x >= y;\n    }\n}\n",
     // 1: UnsafeERC20Operation, PrivateFuncLeadingUnderscore (public function with a leading underscore)
@@ -160,6 +160,10 @@ const SOURCES: [&str; 6] = [
     "pragma solidity 0.8.17;\n\ncontract A4 {\n    uint256 private _x;\n\n    function get() external view returns (uint256) {\n        return _x;\n    }\n}\n",
     // 5: DivideBeforeMultiply, PrivateVarsLeadingUnderscore
     "pragma solidity 0.8.17;\n\ncontract A5 {\n    uint256 private hidden;\n\n    function m(uint256 a, uint256 b, uint256 c) internal pure returns (uint256) {\n        return a / b * c;\n    }\n}\n",
+    // 6: NO pragma at all; UnprotectedSelfdestruct through the `suicide` alias only (the word selfdestruct does not occur), OptimalComparison
+    "contract A6 {\n    address payable owner;\n\n    function kill() public {\n        suicide(owner);\n    }\n\n    function cmp(uint256 x, uint256 y) public pure returns (bool) {\n        return x >= y;\n    }\n}\n",
+    // 7: NO pragma at all; UnsafeERC20Operation, DivideBeforeMultiply, ConstructorOrder
+    "interface IT7 {\n    function approve(address to, uint256 v) external returns (bool);\n}\n\ncontract A7 {\n    uint256 v;\n\n    function f(address t, address a, uint256 b, uint256 c) public returns (uint256) {\n        IT7(t).approve(a, b);\n        return a == address(0) ? 0 : b / c * 3;\n    }\n\n    constructor() {\n        v = 1;\n    }\n}\n",
 ];
 
 #[derive(Clone, Copy, PartialEq, Eq, PartialOrd, Ord, Hash, Debug)]
@@ -486,13 +490,18 @@ impl Node {
 }
 
 fn observe(root: &Path, rel: &str, index: &HashMap<String, Kind>) -> Result<Vec<Node>, String> {
+    observe_with(root, rel, index, false)
+}
+
+/// `follow`: a symbolic link to a directory counts as a directory (what Path::is_dir says)
+fn observe_with(root: &Path, rel: &str, index: &HashMap<String, Kind>, follow: bool) -> Result<Vec<Node>, String> {
     let dir = if rel.is_empty() { root.to_path_buf() } else { root.join(rel) };
     let mut out = vec![];
     for ent in fs::read_dir(&dir).map_err(|e| format!("read_dir {:?}: {}", dir, e))? {
         let ent = ent.map_err(|e| format!("read_dir entry: {}", e))?;
         let name = ent.file_name().to_str().ok_or("non UTF-8 name in scratch tree")?.to_string();
         let r = if rel.is_empty() { name.clone() } else { format!("{}/{}", rel, name) };
-        let is_dir = ent.file_type().map_err(|e| e.to_string())?.is_dir();
+        let is_dir = if follow { ent.path().is_dir() } else { ent.file_type().map_err(|e| e.to_string())?.is_dir() };
         let kind = match index.get(&r) {
             Some(k) => *k,
             None if is_dir => Kind::Dir, // implicit parent of an entry
@@ -501,7 +510,7 @@ fn observe(root: &Path, rel: &str, index: &HashMap<String, Kind>) -> Result<Vec<
         if is_dir != (kind == Kind::Dir) {
             return Err(format!("{:?} has the wrong type on disk", r));
         }
-        let kids = if is_dir { observe(root, &r, index)? } else { vec![] };
+        let kids = if is_dir { observe_with(root, &r, index, follow)? } else { vec![] };
         out.push(Node { name, rel: r, kind, kids });
     }
     Ok(out)
@@ -1203,6 +1212,21 @@ fn pattern_sets(orc: &Oracle, rng: &mut Rng, idx: usize, mode: Mode) -> Vec<(u8,
         if sub != all {
             sets.push((cat, sub));
         }
+        // the configured ORDER of the patterns must not matter: reversed, and a seeded shuffle
+        let mut rev = all.clone();
+        rev.reverse();
+        if rev != all {
+            sets.push((cat, rev));
+        }
+        if idx % 3 == 0 && all.len() > 2 {
+            let mut sh = all.clone();
+            for i in (1..sh.len()).rev() {
+                sh.swap(i, rng.below(i + 1));
+            }
+            if sh != all {
+                sets.push((cat, sh));
+            }
+        }
         if idx % 7 == 0 {
             sets.push((cat, vec![]));
         }
@@ -1462,6 +1486,39 @@ fn run_case_c03(case: &Case, orc: &Oracle) -> CaseOut {
         o.evals += 1;
         for d in discs {
             o.viol.push((d, vec!["c03-case".into(), format!("@src:{}", case.tree.ser()), orc.spec(*cat, pats)]));
+        }
+    }
+    // symlink view: a second root whose first-level directories are SYMBOLIC LINKS to the real ones (first-level files are
+    // copied). Path::is_dir follows links, so the files below a linked directory are "beneath" the analysed directory like
+    // any others; the same contract must hold for this root.
+    #[cfg(unix)]
+    {
+        if nodes.iter().any(|n| n.kind == Kind::Dir) {
+            let sc2 = Scratch::new();
+            let mut ok = true;
+            for n in &nodes {
+                let from = sc.path().join(&n.name);
+                let to = sc2.path().join(&n.name);
+                let r = if n.kind == Kind::Dir { std::os::unix::fs::symlink(&from, &to) } else { fs::copy(&from, &to).map(|_| ()) };
+                if r.is_err() {
+                    ok = false;
+                }
+            }
+            let index: HashMap<String, Kind> = case.tree.ents.iter().map(|e| (e.path.clone(), e.kind)).collect();
+            if ok {
+                if let Ok(nodes2) = observe_with(sc2.path(), "", &index, true) {
+                    o.cover.insert("first-level-directories-as-symbolic-links".into());
+                    let dir2 = sc2.path_str();
+                    for (cat, pats) in &case.sets {
+                        o.evals += 1;
+                        for mut d in check_c03(&dir2, &nodes2, *cat, pats, orc) {
+                            d.key = format!("{}:through-symlinked-directory", d.key);
+                            d.what = format!("with the first-level directories replaced by symbolic links to them: {}", d.what);
+                            o.viol.push((d, vec!["c03-case".into(), format!("@src:{}", case.tree.ser()), orc.spec(*cat, pats)]));
+                        }
+                    }
+                }
+            }
         }
     }
     o.sample = Some(J::obj(vec![
